@@ -707,16 +707,19 @@ def generated_is_current():
 
 def ensure_current(chk, ctx):
     """tools/try_seed.sh (and any full `tools/translate.py` run) of a concurrent job rewrites every Generated/*.lean from its own
-    tree.  If that happened between this check's translation step and now, redo translation, audit and driver build."""
+    tree (usually /repo).  When this check runs against the same tree that is harmless (identical text); when it runs against another
+    tree (DADI_REPO) and the file was rewritten after this check's translation step, redo translation, audit and driver build, checking
+    after each build step (the windows are a few tens of seconds)."""
     import translate as T
-    for attempt in range(4):
-        if generated_is_current(): return
+    if generated_is_current(): return
+    for attempt in range(6):
         chk.notes.append('Generated/Models.lean was rewritten by a concurrent job; regenerated (attempt %d)' % (attempt + 1))
         chk.translate = T.write_all(GENERATED)
         try:
-            chk.audit = common.audit(PROP, EXTRA_MODULES, ctx['tier'])
+            chk.audit = common.audit(PROP, EXTRA_MODULES, 'quick')
         except TypeError:
             chk.audit = common.audit(PROP, EXTRA_MODULES)
+        if not generated_is_current(): continue
         if ctx.get('driver') is not None:
             ctx['driver'].close()
         ctx['driver'] = common.LeanDriver(DRIVER_MODULES)
@@ -724,8 +727,9 @@ def ensure_current(chk, ctx):
         chk.broken[:] = [b for b in chk.broken if not b.startswith('model: lake build of the driver')]
         if not ctx['driver'].build_ok:
             chk.broken.append('model: lake build of the driver modules failed (driver unavailable)')
-    if not generated_is_current():
-        raise common.Infra('lean/DadiVerif/Generated/Models.lean keeps being rewritten by concurrent jobs (tree %s)' % common.REPO)
+        if generated_is_current(): return
+    raise common.Infra('lean/DadiVerif/Generated/Models.lean keeps being rewritten by concurrent jobs running against another tree '
+                       '(this run: %s)' % common.REPO)
 
 def setup(chk, ctx):
     dadi = ctx['dadi']
